@@ -160,7 +160,7 @@ func (e *Engine) reachable(st *State, topLive []ssa.Value) map[int]bool {
 		}
 	}
 	for id := range st.heap {
-		if id >= 1000000 {
+		if id >= globalBase {
 			markObj(id, st, seen)
 		}
 	}
